@@ -15,6 +15,7 @@ RULE = ("histories of 6-14 Calibrator requests in one process mixing all 17 spac
         "(recognised md5), a modified copy (unrecognised), a missing and a malformed file, and custom overrides of 0-3 "
         "top-level entries (channels, thermometers, launch date) whose values differ from the file's; every result is "
         "compared field by field with an independent construction from (spacecraft, custom, file content); "
+        "the version reported by a reader (meta_data, dataset attrs) over 3-6 calibrations of ONE reader with changing parameters; "
         "a case = one request inside a history; non-trivial = distinct request preceded by a request with a different "
         "file or a custom override")
 ASSUME = ["coefficient files are not rewritten in place during a history", "json / md5 as in the Python standard library"]
@@ -189,6 +190,39 @@ def run(res, tier, seed):
                 hist.append(prev)
             res.traces += 1
             coq.append(("([%s], [%s])" % ("; ".join(reqs_coq), "; ".join(outs_coq)), dict(history=h, seed=seed)))
+        # ---------- the version a READER reports (meta_data / dataset attrs) over a history of requests on one reader ----------
+        import l1b
+        vsh = Calibrator.version_hashs.get(__import__("hashlib").md5(shipped_bytes).hexdigest(), {}).get("name")
+        for fmt, sc in (("gac_klm", "noaa16"), ("gac_pod", "noaa14"), ("lac_klm", "metopb")):
+            start = datetime.datetime(2003 if "klm" in fmt else 1996, 4, 5, 6, 7, 8)
+            data = l1b.build_file(fmt, sc, start, l1b.default_lines(fmt, 12, start))
+            r = impl.open_reader(fmt, data, adjust_clock_drift=False)
+            settings = [("defaults", {}, vsh), ("copy", dict(coeffs_file=copy_path), vsh), ("modified", dict(coeffs_file=mod_path), None),
+                        ("custom", dict(custom_coeffs={"channel_1": perturb(rng, "channel_1", shipped[sc]["channel_1"])}), None)]
+            seq = [rng.choice(settings) for _ in range(rng.randint(3, 6))]
+            if len({x[0] for x in seq}) < 2:
+                seq = settings[:]
+                rng.shuffle(seq)
+            for k, (nm, params, ev) in enumerate(seq):
+                ctx = dict(reader=fmt, spacecraft=sc, sequence=[x[0] for x in seq], position=k, seed=seed)
+                try:
+                    r.calibration_parameters = copy.deepcopy(params)
+                    ch = r.get_calibrated_channels()
+                    got_meta = r.meta_data.get("calib_coeffs_version", "absent")
+                    ds = r.get_calibrated_dataset()
+                    got_attr = ds.attrs.get("calib_coeffs_version", "absent")
+                    fresh = impl.open_reader(fmt, data, adjust_clock_drift=False, calibration_parameters=copy.deepcopy(params))
+                    ch_f = fresh.get_calibrated_channels()
+                except Exception as e:  # noqa
+                    res.violations.append(("reader calibration request raised %r" % (e,), ctx))
+                    break
+                if got_meta != ev or got_attr != ev:
+                    res.violations.append(("version reported by the reader is not that of the coefficient set just used",
+                                           dict(ctx, setting=nm, meta_data=got_meta, dataset_attr=got_attr, expected=ev)))
+                if not impl.nan_eq(ch, ch_f):
+                    res.violations.append(("channels of a reader depend on the coefficient sets it used before", dict(ctx, setting=nm)))
+                res.add_case(("reader", fmt, k, tuple(x[0] for x in seq)), k > 0, dict(ctx, setting=nm))
+            res.traces += 1
         # the table handed to the model: spacecraft -> [(key, 2*i)] for each file
         tbl = "[%s]" % "; ".join("(%s, [%s])" % (common.slit(sc), "; ".join("(%s, %d)" % (common.slit(kk), 2 * i) for i, kk in enumerate(shipped[sc].keys()))) for sc in names)
         vshipped = Calibrator.version_hashs.get(__import__("hashlib").md5(shipped_bytes).hexdigest(), {}).get("name")
